@@ -642,6 +642,11 @@ func Run(id string, start time.Time) int {
 		fmt.Fprintln(os.Stderr, err)
 		return 2
 	}
+	capDir := filepath.Join(scratch, "capture")
+	if err := os.MkdirAll(capDir, 0o755); err != nil {
+		fmt.Fprintln(os.Stderr, err)
+		return 2
+	}
 	list, lattice := generate()
 	part := h.NewPartial()
 	workers := runtime.NumCPU()
@@ -661,14 +666,12 @@ func Run(id string, start time.Time) int {
 			return
 		}
 		defer os.RemoveAll(proj)
-		cli := h.CLI{Bin: bin, Dir: filepath.Join(proj, sc.cwd), Args: sc.args, Env: sc.env, Timeout: 120 * time.Second}
-		res := cli.Run()
-		for try := 0; try < 2 && !res.TimedOut && res.Exit == 0 && res.Stdout == "" && res.Stderr == ""; try++ {
-			// exit 0 without a single byte of output: seen only on an overloaded
-			// machine (the harness' pipe reader lost the race against its 2 s
-			// WaitDelay); the observation is void, not a verdict, so it is redone
-			part.Count("silent_runs_retried", 1)
-			res = cli.Run()
+		res := runCLI(h.CLI{Bin: bin, Dir: filepath.Join(proj, sc.cwd), Args: sc.args, Env: sc.env, Timeout: 120 * time.Second}, filepath.Join(capDir, fmt.Sprintf("c%05d", i)))
+		if !res.TimedOut && res.Exit == 0 && res.Stdout == "" && res.Stderr == "" {
+			// exit 0 without a byte of output although the child wrote to files
+			// directly: not a harness artefact any more; counted, and left
+			// inconclusive below (no probe line)
+			part.Count("silent_exit0_runs", 1)
 		}
 		nontrivial := len(sc.Defs)+len(sc.Comp) >= 2 || (sc.Family == "env" && sc.Env.count() >= 2) || (sc.Family == "special" && len(sc.Defs) == 0)
 		part.Eval(sc.key(), nontrivial)
